@@ -182,7 +182,7 @@ func (c *simClient) Create(ctx context.Context, obj client.Object, opts ...clien
 	if obj.GetUID() == "" {
 		obj.SetUID(types.UID(fmt.Sprintf("uid-%05d", c.nobj)))
 	}
-	if obj.GetCreationTimestamp().IsZero() {
+	if ts := obj.GetCreationTimestamp(); ts.IsZero() {
 		obj.SetCreationTimestamp(metav1.NewTime(simEpoch.Add(time.Duration(c.nobj) * time.Second)))
 	}
 	if obj.GetGeneration() == 0 {
